@@ -289,7 +289,7 @@ void h_compute_donors(void)
         name="sweeps.donors.w%d" % don_w, units=[make_donors(don_w)], harness=h, entry="h_compute_donors",
         enforce="compute_donors", replace=["sw_fill_sz"], loop_contracts=True,
         defines=["REC_W=1", "REC_BYTES=8", "DON_W=%d" % don_w, "DON_BYTES=%d" % (8 * don_w)],
-        backend="sat", timeout=600, min_obligations=40, tier=tier,
+        backend="sat", timeout=(600 if tier == "quick" else 1800), min_obligations=40, tier=tier,
         clause="compute_donors, any number of nodes, arbitrary previous table contents: every stored donor d of row r is a node != r with "
                "receiver r (sound), a row holds no node twice (slots strictly increasing), every node != r with receiver r is in row r "
                "(complete); row width %d" % don_w)]
@@ -307,7 +307,10 @@ size_t G, PG, G2, PG2, GS;
 #define UROOT(x) (!MASKED(x) && REC(x) == (x))      /* unmasked outlet: an unmasked node that is its own receiver */
 """
 
-BASINS_ACCESSOR = r"""
+def basins_accessor(part):
+    inst = {"propagation": "    FSL_PRE((SEG[PG] < p && p <= PG) ==> REC(v) != v);              /* SEG[PG] is the LAST root position at or before PG */\n",
+            "labels": "    FSL_PRE(CNT[p + 1] == CNT[p] + (UROOT(v) ? 1 : 0));             /* definition of the ghost counter CNT at p */\n"}[part]
+    return r"""
 /* read of the bottom-up order at position p, with the instances at p of the order contract (DESIGN 3.2) */
 static inline size_t sw_basins_dfs(const size_t *m_dfs_indices, const size_t *m_receivers, const _Bool *m_mask, _Bool m_mask_initialized,
                                    const size_t *POS, const size_t *SEG, const size_t *CNT, size_t gsize, size_t p)
@@ -316,11 +319,10 @@ static inline size_t sw_basins_dfs(const size_t *m_dfs_indices, const size_t *m_
     FSL_PRE(v < gsize);                                             /* entries are nodes */
     FSL_PRE(POS[v] == p);                                           /* POS is the inverse of the order: no node twice */
     FSL_PRE(REC(v) < gsize);                                        /* receivers are nodes */
-    FSL_PRE((SEG[PG] < p && p <= PG) ==> REC(v) != v);              /* SEG[PG] is the LAST root position at or before PG */
-    FSL_PRE(CNT[p + 1] == CNT[p] + (UROOT(v) ? 1 : 0));             /* definition of the ghost counter CNT at p */
-    return v;
+%s    return v;
 }
-"""
+""" % inst
+
 
 BASINS_DEFS = r"""
 #define m_receivers(i, j) m_receivers[FSL_IDX2(i, j, gsize, REC_W)]
@@ -332,9 +334,9 @@ BASINS_DEFS = r"""
 # model-adequacy obligation "length < gsize" (the real vector reallocates and never overflows).
 VEC_RULES = [
     R(r"\bm_outlets\.push_back\(([^()]*)\);",
-      r'{ FSL_CHECK(*m_outlets_n < gsize, "vector model: m_outlets holds at most size() entries"); m_outlets[*m_outlets_n] = (\1); ++*m_outlets_n; }', None),
+      r'{ FSL_CHECK(*m_outlets_n < gsize, "vector model: m_outlets holds at most n entries"); m_outlets[*m_outlets_n] = (\1); ++*m_outlets_n; }', None),
     R(r"\bm_pits\.push_back\(([^()]*)\);",
-      r'{ FSL_CHECK(*m_pits_n < gsize, "vector model: m_pits holds at most size() entries"); m_pits[*m_pits_n] = (\1); ++*m_pits_n; }', None),
+      r'{ FSL_CHECK(*m_pits_n < gsize, "vector model: m_pits holds at most n entries"); m_pits[*m_pits_n] = (\1); ++*m_pits_n; }', None),
 ]
 
 BASINS_PARAMS = ("size_t gsize, const size_t *m_dfs_indices, const size_t *m_receivers, const _Bool *m_mask, _Bool m_mask_initialized, "
@@ -342,16 +344,20 @@ BASINS_PARAMS = ("size_t gsize, const size_t *m_dfs_indices, const size_t *m_rec
 BASINS_ARGS = "gsize, m_dfs_indices, m_receivers, m_mask, m_mask_initialized, m_basins, m_outlets, m_outlets_n, POS, SEG, CNT"
 
 
-def ghost_node_requires(g, pg):
+def ghost_node_requires(g, pg, part):
     """order-contract and table well-formedness instances at a ghost node"""
-    return r"""
+    r = r"""
 __CPROVER_requires(%(g)s < gsize && %(pg)s < gsize && POS[%(g)s] == %(pg)s && m_dfs_indices[%(pg)s] == %(g)s && REC(%(g)s) < gsize)
-/* a node that is not its own receiver comes after its receiver, inside the same root segment */
+"""
+    if part == "propagation":
+        r += r"""
 __CPROVER_requires(POS[REC(%(g)s)] < gsize && m_dfs_indices[POS[REC(%(g)s)]] == REC(%(g)s))
+/* a node that is not its own receiver comes after its receiver, inside the same root segment */
 __CPROVER_requires(REC(%(g)s) != %(g)s ==> (POS[REC(%(g)s)] < %(pg)s && SEG[POS[REC(%(g)s)]] == SEG[%(pg)s] && SEG[POS[REC(%(g)s)]] <= POS[REC(%(g)s)]))
 /* receiver-table well-formedness (router contract, C04: receivers are unmasked): an unmasked node never drains into a masked one */
 __CPROVER_requires(!MASKED(%(g)s) ==> !MASKED(REC(%(g)s)))
-""" % dict(g=g, pg=pg)
+"""
+    return r % dict(g=g, pg=pg)
 
 
 B_MASKED = "(MASKED(G) ==> m_basins[G] == SIZE_MAX)"
@@ -360,16 +366,11 @@ B_ROOT = "(UROOT(%(g)s) ==> (m_basins[%(g)s] == CNT[%(pg)s] && CNT[%(pg)s] < *m_
 B_INCR = "((UROOT(G) && UROOT(G2) && PG < PG2) ==> m_basins[G] < m_basins[G2])"
 B_SLOT = "(GS < *m_outlets_n ==> (m_outlets[GS] < gsize && UROOT(m_outlets[GS]) && m_basins[m_outlets[GS]] == GS))"
 
-compute_basins = Unit(
-    name="compute_basins", file=IMPL_H,
-    anchor=r"void flow_graph_impl<G, S, flow_graph_fixed_array_tag>::compute_basins\(\)",
-    sig="void compute_basins(%s)" % BASINS_PARAMS,
-    pre=BASINS_PRED + BASINS_ACCESSOR, defs=BASINS_DEFS,
-    rules=[
-        R(r"for \(const auto& (\w+) : nodes_indices_bottomup\(\)\)\s*\{",
-          r"for (size_t dfs_k = 0; dfs_k < gsize; ++dfs_k)\n{ const size_t \1 = SW_DFS(dfs_k);", 1),
-    ] + VEC_RULES + IMPL_VOCAB,
-    contract=r"""
+
+def make_basins(part):
+    d = dict(NMAX=NMAX_NODES, GHOST1=ghost_node_requires("G", "PG", part), GHOST2=ghost_node_requires("G2", "PG2", "labels"),
+             MASKED=B_MASKED, SAME=B_SAME, ROOT1=B_ROOT % dict(g="G", pg="PG"), ROOT2=B_ROOT % dict(g="G2", pg="PG2"), INCR=B_INCR, SLOT=B_SLOT)
+    contract = r"""
 __CPROVER_requires(0 < gsize && gsize <= %(NMAX)s)
 __CPROVER_requires(__CPROVER_is_fresh(m_dfs_indices, gsize * 8))
 __CPROVER_requires(__CPROVER_is_fresh(m_receivers, gsize * REC_BYTES))
@@ -380,38 +381,60 @@ __CPROVER_requires(__CPROVER_is_fresh(m_outlets_n, 8))
 __CPROVER_requires(__CPROVER_is_fresh(POS, gsize * 8))
 __CPROVER_requires(__CPROVER_is_fresh(SEG, gsize * 8))
 __CPROVER_requires(__CPROVER_is_fresh(CNT, gsize * 8 + 8))
-%(GHOST1)s%(GHOST2)s
-__CPROVER_requires(CNT[0] == 0)
+%(GHOST1)s
 /* previous contents of m_basins / m_outlets are arbitrary (repeated calls, C09) */
 __CPROVER_assigns(__CPROVER_object_whole(m_basins), __CPROVER_object_whole(m_outlets), *m_outlets_n)
+""" % d
+    inv = r"""
+__CPROVER_assigns(dfs_k, current_basin, __CPROVER_object_whole(m_basins), __CPROVER_object_whole(m_outlets), *m_outlets_n)
+__CPROVER_loop_invariant(dfs_k <= gsize)
+"""
+    if part == "propagation":
+        contract += r"""
 /* C19: masked => reserved maximum label */
 __CPROVER_ensures(%(MASKED)s)
 /* C19: every unmasked node has the label of its receiver */
 __CPROVER_ensures(%(SAME)s)
+""" % d
+        inv += r"""
+/* (these two only carry the authors' assert and the vector-model capacity check in this group) */
+__CPROVER_loop_invariant(*m_outlets_n == current_basin + 1 && *m_outlets_n <= dfs_k)
+__CPROVER_loop_invariant(dfs_k > PG ==> %(MASKED)s)
+/* label propagation: between the receiver's turn and G's turn the current label is the receiver's label */
+__CPROVER_loop_invariant((!MASKED(G) && REC(G) != G && POS[REC(G)] < dfs_k && dfs_k <= PG) ==> m_basins[REC(G)] == current_basin)
+__CPROVER_loop_invariant(dfs_k > PG ==> %(SAME)s)
+""" % d
+    else:
+        contract += r"""
+%(GHOST2)s
+__CPROVER_requires(CNT[0] == 0)
 /* C19: an unmasked outlet is labelled with the number of unmasked outlets before it in bottom-up order (consecutive from 0)
  *      and is stored in the outlet list at that index */
 __CPROVER_ensures(%(ROOT1)s)
 __CPROVER_ensures(%(INCR)s)
 /* C19: number of labels == number of unmasked outlets; every entry of the outlet list is an unmasked outlet carrying its slot as label */
-__CPROVER_ensures(*m_outlets_n == CNT[gsize])
+__CPROVER_ensures(*m_outlets_n == CNT[gsize] && *m_outlets_n <= gsize)
 __CPROVER_ensures(%(SLOT)s)
-""" % dict(NMAX=NMAX_NODES, GHOST1=ghost_node_requires("G", "PG"), GHOST2=ghost_node_requires("G2", "PG2"),
-           MASKED=B_MASKED, SAME=B_SAME, ROOT1=B_ROOT % dict(g="G", pg="PG"), INCR=B_INCR, SLOT=B_SLOT),
-    loops={0: r"""
-__CPROVER_assigns(dfs_k, current_basin, __CPROVER_object_whole(m_basins), __CPROVER_object_whole(m_outlets), *m_outlets_n)
-__CPROVER_loop_invariant(dfs_k <= gsize)
+""" % d
+        inv += r"""
 __CPROVER_loop_invariant(*m_outlets_n == CNT[dfs_k] && current_basin + 1 == CNT[dfs_k] && CNT[dfs_k] <= dfs_k)
-__CPROVER_loop_invariant(dfs_k > PG ==> %(MASKED)s)
 __CPROVER_loop_invariant(dfs_k > PG ==> (%(ROOT1)s && (UROOT(G) ==> CNT[PG] + 1 <= CNT[dfs_k])))
 __CPROVER_loop_invariant(dfs_k > PG2 ==> (%(ROOT2)s))
 __CPROVER_loop_invariant((dfs_k > PG && dfs_k > PG2) ==> %(INCR)s)
-/* label propagation: between the receiver's turn and G's turn the current label is the receiver's label */
-__CPROVER_loop_invariant((!MASKED(G) && REC(G) != G && POS[REC(G)] < dfs_k && dfs_k <= PG) ==> m_basins[REC(G)] == current_basin)
-__CPROVER_loop_invariant(dfs_k > PG ==> %(SAME)s)
 __CPROVER_loop_invariant(GS < *m_outlets_n ==> (m_outlets[GS] < gsize && POS[m_outlets[GS]] < dfs_k && UROOT(m_outlets[GS]) && m_basins[m_outlets[GS]] == GS))
-__CPROVER_decreases(gsize - dfs_k)
-""" % dict(MASKED=B_MASKED, SAME=B_SAME, ROOT1=B_ROOT % dict(g="G", pg="PG"), ROOT2=B_ROOT % dict(g="G2", pg="PG2"), INCR=B_INCR)},
-)
+""" % d
+    inv += "__CPROVER_decreases(gsize - dfs_k)\n"
+    return Unit(
+        name="compute_basins", file=IMPL_H,
+        anchor=r"void flow_graph_impl<G, S, flow_graph_fixed_array_tag>::compute_basins\(\)",
+        sig="void compute_basins(%s)" % BASINS_PARAMS,
+        pre=BASINS_PRED + basins_accessor(part), defs=BASINS_DEFS,
+        rules=[
+            R(r"for \(const auto& (\w+) : nodes_indices_bottomup\(\)\)\s*\{",
+              r"for (size_t dfs_k = 0; dfs_k < gsize; ++dfs_k)\n{ const size_t \1 = SW_DFS(dfs_k);", 1),
+        ] + VEC_RULES + IMPL_VOCAB,
+        contract=contract, loops={0: inv},
+    )
 
 
 def basins_groups():
@@ -425,14 +448,17 @@ void h_compute_basins(void)
     compute_basins(%s);
 %s}
 """ % (BASINS_ARGS, CANARY)
+    clause = {
+        "propagation": "masked => SIZE_MAX; an unmasked node that is not its own receiver has the label of its receiver (label propagation "
+                       "along the bottom-up order, using the root-segment witness SEG); the authors' assert outlets.size() == last label + 1",
+        "labels": "an unmasked outlet's label = number of unmasked outlets before it in bottom-up order (consecutive from 0, strictly increasing "
+                  "along the order) and outlets[label] = node; outlets.size() = number of unmasked outlets; every outlet-list entry is an "
+                  "unmasked outlet labelled with its slot; the authors' assert"}
     return [Group(
-        name="sweeps.basins", units=[is_masked, compute_basins], harness=h, entry="h_compute_basins", enforce="compute_basins",
-        loop_contracts=True, defines=["REC_W=1", "REC_BYTES=8"], backend="sat", timeout=900, min_obligations=60,
-        clause="compute_basins, any number of nodes, any mask, any bottom-up order satisfying the order contract, arbitrary previous contents: "
-               "masked => SIZE_MAX; unmasked non-outlet => label of its receiver; unmasked outlet => label = number of unmasked outlets before it "
-               "(consecutive from 0, increasing in bottom-up order) and outlets[label] = node; outlets.size() = number of unmasked outlets; every "
-               "outlet-list entry is an unmasked outlet labelled with its slot; the authors' assert outlets.size() == last label + 1")]
-
+        name="sweeps.basins.%s" % part, units=[is_masked, make_basins(part)], harness=h, entry="h_compute_basins", enforce="compute_basins",
+        loop_contracts=True, defines=["REC_W=1", "REC_BYTES=8"], backend="sat", timeout=600, min_obligations=60,
+        clause="compute_basins, any number of nodes, any mask, any bottom-up order satisfying the order contract, arbitrary previous contents: " +
+               clause[part]) for part in ("propagation", "labels")]
 
 
 # ---------------------------------------------------------------------------------------------------- pits
@@ -772,7 +798,7 @@ __CPROVER_ensures(__CPROVER_old(SW_OVF) ==> SW_OVF)
         pre=ACC_PRED + acc_op_contracts(rec_w) + acc_accessors(mode), defs=acc_defs(mode),
         rules=[
             # reverse iterator over the order: turn dfs_k reads position size-1-dfs_k
-            R(r"const auto (\w+) = \*inode_ptr;", r"const size_t \1 = SW_DFS(TURN_POS(dfs_k));", 1),
+            R(r"const auto (\w+) = \*\w+;", r"const size_t \1 = SW_DFS(TURN_POS(dfs_k));", 1),
         ] + ACC_OP_RULES + ACC_VOCAB,
         contract=contract,
     )
@@ -809,7 +835,7 @@ def acc_step_groups(rec_w, tier="quick"):
             harness=acc_step_harness(rec_w), entry="h_accumulate_step", enforce="accumulate_step",
             replace=["sw_mul_local", "sw_mul_w"] + (["sw_add"] if mode == "eq" else []),
             unwindset={("accumulate_step", 0): rec_w + 1}, defines=acc_defines(rec_w),
-            backend="sat", timeout=600, min_obligations=30, tier=tier,
+            backend="sat", timeout=(600 if tier == "quick" else 1800), min_obligations=30, tier=tier, object_bits=(10 if rec_w >= 4 else None),
             clause={"eq": "one turn of the accumulation sweep (node v), + and * abstracted as deterministic functions of their operands: "
                           "finality (a node whose turn is over is not written), own contribution area*src added once, each receiver slot r of v "
                           "pointing to a node != v adds acc(v)*weight(v,r) to it in slot order, no other node changes",
@@ -924,7 +950,7 @@ def acc_outer_groups(rec_w, tier="quick"):
             name="sweeps.accumulate.loop.%s.w%d" % (mode, rec_w), units=[make_acc_step(rec_w, mode), make_acc_outer(rec_w, mode)],
             harness=acc_outer_harness(rec_w), entry="h_accumulate", enforce="accumulate",
             replace=["accumulate_step", "sw_fill_d"], loop_contracts=True, defines=acc_defines(rec_w),
-            backend="sat", timeout=600, min_obligations=30, tier=tier,
+            backend="sat", timeout=(600 if tier == "quick" else 1800), min_obligations=30, tier=tier, object_bits=(10 if rec_w >= 4 else None),
             clause={"eq": "whole accumulation sweep (any number of nodes, any order satisfying the order contract, arbitrary previous contents of acc): "
                           "acc starts from 0; for an arbitrary node G and an arbitrary turn (node v): v == G adds area*src once, v != G adds "
                           "acc_final(v)*weight(v,r) for each slot r pointing to G in slot order and nothing otherwise; the returned acc[G] is the "
@@ -935,9 +961,141 @@ def acc_outer_groups(rec_w, tier="quick"):
     return gs
 
 
+
+def fp_facts_groups():
+    """bit-precise one-operation lemmas behind the sign clauses of the abstracted products (DESIGN 3.4): the IEEE multiplication itself is
+    put under exactly those clauses (no code of /repo involved: `*` on doubles is the operation the body applies)"""
+    h = NONDET + r"""
+double sw_ieee_mul(double a, double w)
+__CPROVER_assigns()
+/* clause of sw_mul_local and sw_mul_w: finite non-negative operands give a non-negative (in particular non-NaN) product */
+__CPROVER_ensures((a >= 0 && a < INFINITY && w >= 0 && w < INFINITY) ==> __CPROVER_return_value >= 0)
+/* clause of sw_mul_w: a not-negative (possibly NaN or +inf) value times a non-negative weight is never negative */
+__CPROVER_ensures((!(a < 0) && w >= 0) ==> !(__CPROVER_return_value < 0))
+/* a NaN product of non-NaN, non-negative operands needs an infinite operand (what the ghost flag SW_OVF records) */
+__CPROVER_ensures((a >= 0 && w >= 0 && !isinf(a) && !isinf(w)) ==> !isnan(__CPROVER_return_value))
+{
+    return a * w;
+}
+void h_fp_facts(void)
+{
+    double r = sw_ieee_mul(nondet_double(), nondet_double());
+%s}
+""" % CANARY
+    return [Group(
+        name="sweeps.accumulate.fp_facts", units=[], harness=h, entry="h_fp_facts", enforce="sw_ieee_mul",
+        backend="sat", timeout=300, min_obligations=3,
+        clause="IEEE-754 binary64 multiplication satisfies the sign clauses assumed of the abstracted products (one product per obligation, bit-precise)")]
+
+
 GROUPS = {"C01": tilt_groups()}
 GROUPS["C02"] = GROUPS["C01"]
-GROUPS["C03"] = acc_step_groups(1) + acc_outer_groups(1) + acc_step_groups(2) + acc_outer_groups(2)
+GROUPS["C03"] = (fp_facts_groups() + acc_step_groups(1) + acc_outer_groups(1) + acc_step_groups(2) + acc_outer_groups(2) +
+                 acc_step_groups(4, "thorough") + acc_outer_groups(4, "thorough") + acc_step_groups(8, "thorough") + acc_outer_groups(8, "thorough"))
 GROUPS["C19"] = basins_groups() + pits_groups()
 GROUPS["C06"] = donors_groups(2) + donors_groups(4, "thorough") + donors_groups(8, "thorough")
-PROPS = {}
+ORDER_CONTRACT = (
+    "order contract of the bottom-up order m_dfs_indices (the postconditions C06 asks of compute_dfs_indices_bottomup/topdown; established only "
+    "boundedly there), supplied as harness-owned ghost arrays and instantiated in `requires` at the ghost nodes and by the read accessor at the "
+    "position being read (DESIGN 3.2/3.5): (O1) permutation with inverse POS: dfs[p] < n, POS[dfs[p]] == p, dfs[POS[v]] == v; (O2) every receiver "
+    "r != v of v has POS[r] < POS[v]")
+
+PROPS = {
+    "C19": dict(
+        level="proof",
+        assumptions=[
+            ORDER_CONTRACT + "; (O3) SEG[p] <= p is the position of the LAST own-receiver node at or before p (dfs[SEG[p]] is a root, no root at a "
+            "position in (SEG[p], p]) -- used as the instances SEG[POS[r]] <= POS[r] and (SEG[PG] < p <= PG => dfs[p] is not a root); (O4) a node that "
+            "is not its own receiver lies in the root segment of its receiver: SEG[POS[rec v]] == SEG[POS[v]] (each root is immediately followed by "
+            "its whole subtree). Producer: compute_dfs_indices_bottomup (C06, bounded there).",
+            "CNT[p] = number of unmasked own-receiver nodes at positions < p and PCNT[k] = number of non-base-level entries among outlets[0..k) are "
+            "ghost DEFINITIONS (CNT[0] = 0, CNT[p+1] = CNT[p] + [..]), instantiated at the position read; they constrain no input",
+            "receiver table well-formedness instantiated on read / at the ghost node: receivers are nodes (< n); an unmasked node never has a masked "
+            "receiver (router contracts C04/C05 `receiver unmasked`; the property statement presupposes it: it demands equal labels along receivers "
+            "and SIZE_MAX on masked nodes)",
+            "std::vector m_outlets / m_pits modelled as (buffer of n entries, length); push_back carries the model-adequacy obligation length < n "
+            "(proved); clear() sets the length to 0; the range-for over m_outlets is the index loop 0..size-1",
+            "range-for over nodes_indices_bottomup() is the index loop over m_dfs_indices[0..n-1] (stl_container_iterator_wrapper is glue)",
+            "pits(): outlet entries are nodes (compute_basins postcondition sweeps.basins.labels, instantiated on read); `every pit is a member of "
+            "the outlet list` is stated without an existential as: every node property QQ shared by all outlet entries holds of every pit",
+            "unordered_set m_base_levels modelled by its characteristic function (spec/graphmodel.py)",
+            "the public wrapper's reshape (flow_graph::basins(), xt::flatten assignment) is glue",
+        ],
+        unmechanised=[
+            "every unmasked node carries the label of the outlet its receiver chain ends in, hence labels of unmasked nodes lie in [0, #outlets): "
+            "induction along the receiver chain (finite by O2) from `same label as the receiver` and the outlet clause",
+            "pits <-> non-base-level outlets is a bijection: from `the j-th non-base-level outlet is pit j`, `pits.size() = their number` (pigeonhole)",
+        ],
+        explanation="compute_basins is decided by two unbounded loop-contract groups (label propagation with the SEG witness; outlet numbering with "
+                    "the CNT counter, including the authors' assert), pits() by one.",
+    ),
+    "C03": dict(
+        level="other",
+        assumptions=[
+            ORDER_CONTRACT + " (for every receiver slot r < receivers_count(v)). Producers: compute_dfs_indices_topdown / _bottomup (C06, bounded there).",
+            "receiver tables well-formed, instantiated on read: receivers are nodes, receivers_count(v) <= table width (router contracts C04/C05)",
+            "glue modelled, not verified: xt::broadcast(src, shape)/src_arr(inode) is an array src[n] (scalar source = constant array), "
+            "m_grid.nodes_areas(inode) is an array area[n]; acc.fill(0) is element-wise (observed at the ghost cells); the reverse iterator over "
+            "nodes_indices_bottomup() is the index loop over positions n-1 .. 0",
+            "operation abstraction (DESIGN 3.4) in the step-equation groups (*.eq.*): `*` (both products) AND `+` (both `+=`) are deterministic "
+            "functions keyed on their operands through ghost points (same encoding as slope_abstraction); the equations therefore speak about the "
+            "very operations the code applies (fl(acc(v)*w(v,r)), fl(x+y)) without fixing their values. Reason: the equation needs the code's and "
+            "the specification's copy of each operation in one obligation; one duplicated IEEE adder alone did not finish in 120 s on minisat, "
+            "cadical, z3, cvc5. Keys use ==, so a NaN operand matches no key (no claim is made for turns whose operands are NaN)",
+            "non-negativity groups (*.nonneg.*): additions are the IEEE additions; products are abstracted with the sign clauses that "
+            "sweeps.accumulate.fp_facts proves bit-precisely for the IEEE multiplication; input range (sources, areas, weights finite and >= 0) "
+            "instantiated on read; ghost flag SW_OVF records that an infinite accumulated value was multiplied by a weight",
+            "induction-hypothesis instance (DESIGN 3.9) of the invariant `no accumulated value is negative` at the node of the turn, taken at the "
+            "start of the iteration before any write (FSL_PRE in front of the outlined body); base and step are proved for the arbitrary ghost node",
+            "loop body outlined as accumulate_step(turn); the sweep is closed by a loop contract using only the step's contract; ghost history "
+            "variables SN_INIT/SN_PRE/SN_POST (value of acc[G] at sweep start, before/after one arbitrary turn) are assigned in ghost statements only",
+        ],
+        unmechanised=[
+            "the recurrence acc(G) = area(G)*src(G) + sum over donors d of acc(d)*w(d,G) and the conservation corollary: induction over the order "
+            "from init_zero + the per-turn equation (every turn, every node) + finality, in exact arithmetic; in floating point `equals` holds up "
+            "to the rounding of this fixed summation order",
+        ],
+        undecided=[
+            "equality `within rounding` with the real-valued upstream integral, conservation of the source sum: no bit-precise statement",
+            "equivalence of the four public overloads (xt::broadcast, forwarding, from_shape): xtensor glue",
+            "bounded stand-in against the recurrence on small graphs (DESIGN C03 B): not built in this module",
+        ],
+        explanation="Unbounded: init_zero, step_equation (per turn, any table width tried: 1, 2 quick; 4, 8 thorough), sweep_finality, "
+                    "nonneg_lower_bound. The recurrence itself is the unmechanised composition of these.",
+    ),
+    "C01": dict(
+        level="other",
+        assumptions=[
+            "tilt loop: " + ORDER_CONTRACT + " (single receiver column). Producer: compute_dfs_indices_bottomup (C06, bounded there).",
+            "std::nextafter(x, +inf): the assumed contract of models/fsl.h (strictly larger unless +inf/NaN) strengthened by determinism (same "
+            "argument, same result: one ghost point NA_X -> NA_Y) -- contract sw_nextafter_up in spec/sweeps.py, used via replace",
+            "tilt loop input range: no NaN elevation; instantiated at the ghost node in `requires` and, as induction-hypothesis instance (DESIGN "
+            "3.9) of the invariant `no elevation is NaN`, at the first read of elevation[receiver] in an iteration (the iteration's only write "
+            "goes to a different cell)",
+            "tilt loop: receivers are nodes (instantiated on read); the aliases dfs_indices/receivers are accessor macros; `irec_elev` stays a "
+            "reference (pointer) to the elevation cell",
+        ],
+        unmechanised=["strict descent along receivers => no cycle, every chain ends at a base level (DESIGN C01 composition lemma)"],
+        explanation="sweeps.tilt decides C01.msttilt.above_receiver: after the tilt every node is its own receiver, or strictly above its receiver, "
+                    "or its receiver sits at +inf (reachable only from DBL_MAX by nextafter).",
+    ),
+    "C02": dict(
+        level="other",
+        assumptions=["see C01 (tilt loop): order contract, nextafter contract + determinism, NaN-free input"],
+        undecided=["minimality of the filled level (spill level) -- not a property of the tilt loop"],
+        explanation="sweeps.tilt decides for the spanning-tree resolver's tilt loop: never_below_input, terminals_bit_identical (own-receiver nodes "
+                    "are never written), one_increment_per_step (a changed value is nextafter of the receiver's final elevation) and `only nodes "
+                    "not above their receiver are raised`.",
+    ),
+    "C06": dict(
+        level="other",
+        assumptions=[
+            "compute_donors: receivers are nodes (instantiated on read); donor row capacity #donors(r) <= row width (n_neighbors_max + 1; a "
+            "counting argument over the neighbour relation, not mechanised) is a stated precondition instance wherever a donor count is used as "
+            "a slot index (same justification as spec/router.py); m_donors_count.fill(0) is element-wise (observed at the ghost row)",
+        ],
+        explanation="sweeps.donors.* decide for compute_donors (single receiver column, as the code's TODO says): rows sound, duplicate-free "
+                    "(strictly increasing) and complete for an arbitrary ghost row, with arbitrary previous table contents. The traversal orders "
+                    "are not covered by this module.",
+    ),
+}
